@@ -21,25 +21,25 @@ DLen(EL, CH, c) == IF EL = 0 THEN 0 ELSE IF c < NChunks(EL, CH) - 1 THEN CH ELSE
 CStart(CH, TAG, c) == c * (CH + TAG)
 Have(EL, CH, TAG, b, c) == Max(0, Min(DLen(EL, CH, c) + TAG, b - CStart(CH, TAG, c)))
 Complete(EL, CH, TAG, b, c) == Have(EL, CH, TAG, b, c) = DLen(EL, CH, c) + TAG
-\* number of leading complete chunks
-CompleteChunks(EL, CH, TAG, b) ==
+\* number of leading chunks that are complete and not damaged (bad = index of the damaged chunk, -1 if none),
+\* counting from chunk `from`
+GoodChunksFrom(EL, CH, TAG, b, bad, from) ==
   LET N == NChunks(EL, CH)
-      F[c \in 0..N] == IF c = N THEN N ELSE IF Complete(EL, CH, TAG, b, c) THEN F[c + 1] ELSE c
-  IN F[0]
+      F[c \in 0..N] == IF c = N THEN N ELSE IF Complete(EL, CH, TAG, b, c) /\ c # bad THEN F[c + 1] ELSE c
+  IN F[from]
+DataUpTo(EL, CH, k) == LET S[c \in 0..k] == IF c = 0 THEN 0 ELSE S[c - 1] + DLen(EL, CH, c - 1) IN S[k]
 \* every data byte present (unauthenticated mode)
 EncUnauth(EL, CH, TAG, b) ==
   LET N == NChunks(EL, CH)
       S[c \in 0..N] == IF c = 0 THEN 0 ELSE S[c - 1] + Min(DLen(EL, CH, c - 1), Have(EL, CH, TAG, b, c - 1))
   IN S[N]
-\* data of the leading complete chunks (what "only authenticated data" means)
-EncAuthStrict(EL, CH, TAG, b) ==
-  LET k == CompleteChunks(EL, CH, TAG, b)
-      S[c \in 0..k] == IF c = 0 THEN 0 ELSE S[c - 1] + DLen(EL, CH, c - 1)
-  IN S[k]
-\* as built (finding D4): chunk 0 is handed out without verification, even incomplete
-EncAuthAsBuilt(EL, CH, TAG, b) ==
-  IF CompleteChunks(EL, CH, TAG, b) = 0 THEN Min(DLen(EL, CH, 0), Have(EL, CH, TAG, b, 0))
-  ELSE EncAuthStrict(EL, CH, TAG, b)
+\* data of the leading chunks whose tag verifies (what "only authenticated data" means)
+EncAuthStrict(EL, CH, TAG, b, bad) == DataUpTo(EL, CH, GoodChunksFrom(EL, CH, TAG, b, bad, 0))
+\* as built (finding D4): chunk 0 is handed out without verification, even incomplete or damaged
+EncAuthAsBuilt(EL, CH, TAG, b, bad) ==
+  IF ~Complete(EL, CH, TAG, b, 0) THEN Min(DLen(EL, CH, 0), Have(EL, CH, TAG, b, 0))
+  ELSE IF NChunks(EL, CH) = 1 THEN DLen(EL, CH, 0)
+  ELSE DataUpTo(EL, CH, GoodChunksFrom(EL, CH, TAG, b, bad, 1))
 
 \* ------------------------------------------------------------------ compression layer
 \* a = compressed bytes available; returns <<low, high>> plaintext bounds
@@ -64,8 +64,8 @@ EncAvail(A, n, mode) ==
   LET b == Max(0, n - A.H) IN
   IF ~A.enc THEN b
   ELSE IF mode = "unauth" THEN EncUnauth(EncPlainLen(A), A.CH, A.TAG, b)
-  ELSE IF mode = "strict" THEN EncAuthStrict(EncPlainLen(A), A.CH, A.TAG, b)
-  ELSE EncAuthAsBuilt(EncPlainLen(A), A.CH, A.TAG, b)
+  ELSE IF mode = "strict" THEN EncAuthStrict(EncPlainLen(A), A.CH, A.TAG, b, A.badchunk)
+  ELSE EncAuthAsBuilt(EncPlainLen(A), A.CH, A.TAG, b, A.badchunk)
 \* <<low, high>> plaintext bytes of the block stream available to the repair loop
 Budget(A, n, mode) ==
   IF n < A.H THEN <<0, 0>>
